@@ -1251,7 +1251,7 @@ class Query(Runner):
 class SearchAfterExtractor:
     def __init__(self):
         # finds the start of e.g. '[1609780186, "2"]' in '"sort": [1609780186, "2"]'
-        self.sort_pattern = re.compile(r"sort\":\s*(\[)")
+        self.sort_pattern = re.compile(r"sort\"\s*:\s*(\[)")
         self.decoder = json.JSONDecoder()
 
     def __call__(self, response: BytesIO, get_point_in_time: bool, hits_total: Optional[int]) -> (dict, list):
